@@ -34,8 +34,8 @@ CONSTANTS MaxOps,      \* programs have at most MaxOps top-level operators
 \*   nf    -- the stream really has its null/missing keys first
 \*   multi -- the key was unified over several parents (the stream is their combine)
 \*   lost  -- the stream is in fact no longer sorted by f
-\*   strm  -- the stream reaches this point from the source without a blocking
-\*            operator (sort), i.e. it is delivered batch by batch
+\*   strm  -- the stream reaches this point from the enclosing fork without a blocking
+\*            operator (sort), i.e. the fork hands it over batch by batch
 Key(f, desc, nf) == [f |-> f, desc |-> desc, nf |-> nf, multi |-> FALSE, lost |-> FALSE, strm |-> FALSE]
 NoKey == Key("", FALSE, FALSE)
 KeyEq(a, b) == a.f = b.f /\ a.desc = b.desc           \* order.SortKeys.Equal
@@ -45,13 +45,18 @@ DirOf(k) == IF k.desc THEN -1 ELSE 1
 Acc(seq, taint, rules) == [seq |-> seq, taint |-> taint, rules |-> rules]
 
 \* ----------------------------------------------- mergeFilters / removePassOps
+\* one sequence, from the next-to-last element toward the first; result [seq, taint].
+\* `where A | where B` drops an error produced by A (B sees the error value, whose
+\* fields are missing) while `where A and B` passes it on: not an equivalence when
+\* A can yield an error.
 RECURSIVE MergeFiltersSeq(_)
-MergeFiltersSeq(seq) ==       \* one sequence, from the next-to-last element toward the first
-  IF Len(seq) <= 1 THEN seq
+MergeFiltersSeq(seq) ==
+  IF Len(seq) <= 1 THEN [seq |-> seq, taint |-> {}]
   ELSE LET rest == MergeFiltersSeq(Tail(seq)) IN
-       IF seq[1].k = "where" /\ rest[1].k = "where"
-       THEN <<[k |-> "where", ps |-> seq[1].ps \o rest[1].ps]>> \o Tail(rest)
-       ELSE <<seq[1]>> \o rest
+       IF seq[1].k = "where" /\ rest.seq[1].k = "where"
+       THEN [seq |-> <<[k |-> "where", ps |-> seq[1].ps \o rest.seq[1].ps]>> \o Tail(rest.seq),
+             taint |-> rest.taint \cup (IF ErrCapable(seq[1].ps) THEN {"merge-filters-error"} ELSE {})]
+       ELSE [seq |-> <<seq[1]>> \o rest.seq, taint |-> rest.taint]
 
 RemovePassSeq(seq) ==
   LET r == SelectSeq(seq, LAMBDA o : o.k # "pass")
@@ -104,8 +109,8 @@ LiftFrom(r, i) == IF i + 1 > Len(r.seq) THEN r ELSE LiftFrom(Lift(r, i), i + 1)
 \* optimizer.walk: post-order over Fork legs (not over Switch cases).
 ApplyNamed(name, r, top) ==
   CASE name = "mergeFilters" ->
-         LET s == MergeFiltersSeq(r.seq) IN
-         Acc(s, r.taint, IF s # r.seq THEN r.rules \cup {"merge-filters"} ELSE r.rules)
+         LET m == MergeFiltersSeq(r.seq) IN
+         Acc(m.seq, r.taint \cup m.taint, IF m.seq # r.seq THEN r.rules \cup {"merge-filters"} ELSE r.rules)
     [] name = "removePass" ->
          \* the top-level sequence contains the source, so it never becomes empty in the code
          LET s == IF top THEN SelectSeq(r.seq, LAMBDA o : o.k # "pass") ELSE RemovePassSeq(r.seq) IN
@@ -180,7 +185,7 @@ PSKOp(op, parents, acc) ==
               LET RECURSIVE Legs(_, _)
                   Legs(m, a) ==      \* a = [legs, keys, taint, rules]
                     IF m > Len(op.legs) THEN a
-                    ELSE LET sub == PSK(op.legs[m], <<parent>>, [taint |-> a.taint, rules |-> a.rules])
+                    ELSE LET sub == PSK(op.legs[m], <<IF IsNil(parent) THEN parent ELSE [parent EXCEPT !.strm = TRUE]>>, [taint |-> a.taint, rules |-> a.rules])
                          IN Legs(m + 1, [legs |-> Append(a.legs, sub.seq), keys |-> a.keys \o sub.keys,
                                          taint |-> sub.taint, rules |-> sub.rules])
                   res == Legs(1, [legs |-> <<>>, keys |-> <<>>, taint |-> acc.taint, rules |-> acc.rules])
@@ -233,7 +238,10 @@ Optimize(prog) ==
       p6 == PSK(r5.seq, <<SrcKey(prog.src.sk)>>, [taint |-> r5.taint, rules |-> r5.rules])
       lift == p6.seq # <<>> /\ p6.seq[1].k = "where"        \* matchFilter
       src7 == IF lift THEN [prog.src EXCEPT !.filter = p6.seq[1].ps] ELSE prog.src
-      r7 == Acc(IF lift THEN Tail(p6.seq) ELSE p6.seq, p6.taint,
+      \* the scanner delivers only values for which the filter is true; the where
+      \* operator it replaces also passes on error results
+      r7 == Acc(IF lift THEN Tail(p6.seq) ELSE p6.seq,
+                p6.taint \cup (IF lift /\ ErrCapable(p6.seq[1].ps) THEN {"pushdown-error"} ELSE {}),
                 IF lift THEN p6.rules \cup {"filter-into-source"} ELSE p6.rules)
       \* insertDemand only annotates SeqScan (pool scans); nothing for a reader source.
       r8 == WalkNamed("removePass", r7, TRUE)
@@ -252,7 +260,7 @@ JoinOp(style) == [k |-> "join", style |-> style, ldir |-> 0, rdir |-> 0]
 PassOp == [k |-> "pass"]
 
 SimpleOps1 ==
-  { W("a>0"), W("b<2"), W("!(a>0)"),
+  { W("a>0"), W("b<2"), W("!(a>0)"), W("1/a>0"),
     CutOp("a", "a"), CutOp("b", "b"), [k |-> "cutcount"],
     [k |-> "drop", f |-> "a"],
     PutOp("c", "a"), PutOp("a", "b"),
@@ -438,7 +446,8 @@ vars == <<prog, inp, sk>>
 \* needing three operators are reached exhaustively.
 StartProgs == { <<>>,
                 <<ForkOp(<<SortOp("a", FALSE, FALSE, FALSE)>>, <<SortOp("a", FALSE, FALSE, FALSE)>>), [k |-> "merge", f |-> "a", desc |-> FALSE]>>,
-                <<ForkOp(<<W("b<2"), SortOp("a", FALSE, FALSE, FALSE)>>, <<SortOp("a", FALSE, FALSE, FALSE)>>), [k |-> "merge", f |-> "a", desc |-> FALSE]>> }
+                <<ForkOp(<<W("b<2"), SortOp("a", FALSE, FALSE, FALSE)>>, <<SortOp("a", FALSE, FALSE, FALSE)>>), [k |-> "merge", f |-> "a", desc |-> FALSE]>>,
+                <<CutOp("b", "b"), RenOp("a", "b")>> }
 Init == /\ prog \in StartProgs
         /\ inp \in InputsOf
         /\ sk \in SortKeysOf(inp)
@@ -467,8 +476,7 @@ Check ==
                taint |-> rw.taint, rules |-> rw.rules, eq |-> eq]
       \* Emit: every program of <= 1 operator, every state in which a rule fired (the plan
       \* changed), and for the rest the states over the curated inputs with an index in EmitPlain.
-      emit == Emit /\ (Len(prog) <= 1 \/ rw.rules # {} \/ \E i \in EmitPlain : i <= Len(QuickInputs) /\ inp = QuickInputs[i])
-  IN /\ emit => PrintT(ToJson(case))
-     /\ ~ref.poison                                   \* RefSane
-     /\ (ref.det /\ rw.taint = {}) => eq              \* Preserved
+      ok == ~ref.poison /\ ((ref.det /\ rw.taint = {}) => eq)        \* RefSane /\ Preserved
+      emit == Emit /\ (Len(prog) <= 1 \/ rw.rules # {} \/ ~ok \/ \E i \in EmitPlain : i <= Len(QuickInputs) /\ inp = QuickInputs[i])
+  IN (emit => PrintT(ToJson(case))) /\ ok
 =============================================================================
